@@ -208,7 +208,9 @@ pub fn run(ctx: &Ctx) -> Report {
             rep.count("numeric_extremes", 1);
             // first in a child process: an allocation failure or a stack overflow aborts the
             // process and cannot be caught in this one
+            // (not under Miri, which cannot start processes: there the case is judged in-process only)
             let exe = std::env::current_exe().unwrap();
+            if cfg!(miri) { let v = judge(&c); record(&mut rep, &c, v, "numeric-extreme"); continue; }
             match std::process::Command::new(exe).args(["probe", "decode-hex", &crate::util::hex(&c)]).output() {
                 Ok(o) if o.status.code().is_none() => {
                     rep.violation("C16:process-abort:numeric-extreme", format!("the decoder process was killed ({:?}) by input {}", o.status, show(&c)), json!({"input": show(&c)}));
